@@ -447,8 +447,11 @@ def run(ck: core.Check):
     known_finding_stream(ck)
     witness_stream(ck)
 
-    for need in ("fixed.in-domain", "random.in-domain", "flow.in-domain", "theorem-domain.fixed", "theorem-domain.random",
-                 "theorem-domain.flow", "layout.packed-some", "layout.all-spread", "file.csv", "file.xlsx"):
+    for soft in ("theorem-domain.fixed", "theorem-domain.random", "theorem-domain.flow"):
+        if not ck.strata.get(soft):
+            # not an infrastructure matter: a source edit can put a whole schema outside the theorem's family
+            ck.notes.append(f"no generated case satisfies the hypotheses of Props.C07.parse_unparse in stratum {soft}")
+    for need in ("fixed.in-domain", "random.in-domain", "flow.in-domain", "layout.packed-some", "layout.all-spread", "file.csv", "file.xlsx"):
         if not ck.strata.get(need):
             raise core.Infra(f"generator self-check: stratum {need} is empty")
 
